@@ -262,6 +262,8 @@ def r6(chk, ctx, st):
 
 
 def run(chk, ctx):
+    from . import generic
+    generic.definite_assignment(chk, ctx, ['store'], "C20.DA")   # no local is read before it is bound (UnboundLocalError = an arbitrary exception)
     st = ctx.mod("store")
     r1(chk, ctx, st)
     r2(chk, ctx, st)
